@@ -7,7 +7,7 @@ import Chewing.Proofs.EditorLink
 (`ACBound`) at the states inside the steps.  Here that premise is discharged from C01: the states inside a step
 satisfy the shared-state invariant (`mid_shInv`), there the conversion answer tiles the buffer
 (`Link.tilingAt_of_shInv`, from `EnvOK.convert_ok` = C03), hence the auto-commit leaves at most `threshold`
-symbols.  Result (`within_run_linked`): for every environment satisfying `EnvOK` and `NoFuzzy`, from every state
+symbols.  Result (`within_run_linked`): for every environment satisfying `EnvOK` (either lookup strategy, since the FX3 repair), from every state
 satisfying C01's safety invariant and `Within`, every history of valid operations under `SafeAlong` RUNS (no panic)
 and ends in a state satisfying both; and every conversion the editor asks for inside those steps is over at most
 `B + max 2 K` symbols (`mid_len_linked`).
@@ -52,29 +52,29 @@ theorem mid_shInv (hE : EnvOK env G) {e : Editor D L} (hi : EditorInv env G w e)
   | jump wh => exact hm.elim
 
 /-- **one operation, no premise on the conversion**: it returns, C01's invariant and `Within` hold afterwards -/
-theorem within_apply_linked {B K : Nat} (hE : EnvOK env G) (hn : NoFuzzy env) {e : Editor D L}
+theorem within_apply_linked {B K : Nat} (hE : EnvOK env G) {e : Editor D L}
     (hi : EditorInv env G w e) (hw : Within B K e) (op : Op L) (hv : OpValid op) (hk : w → ¬ Known env e op)
     (hs : SafeOp B e op) : ∃ e', e.apply env op = .ok e' ∧ EditorInv env G w e' ∧ Within B K e' := by
   obtain ⟨e', h, hi'⟩ := apply_ok hE hi op hv hk
-  exact ⟨e', h, hi', within_apply env hn hw op hs (fun sh hm => acBound_of_shInv hE (mid_shInv hE hi hm)) h⟩
+  exact ⟨e', h, hi', within_apply env hw op hs (fun sh hm => acBound_of_shInv hE (mid_shInv hE hi hm)) h⟩
 
 /-- **every history**: valid operations (C01's `OpValid`), side conditions `SafeAlong` — the run returns and both
     invariants hold at the end (strength `False` of C01's invariant: no exclusion of a known class) -/
-theorem within_run_linked {B K : Nat} (hE : EnvOK env G) (hn : NoFuzzy env) (ops : List (Op L)) :
+theorem within_run_linked {B K : Nat} (hE : EnvOK env G) (ops : List (Op L)) :
     ∀ e : Editor D L, SafeInv env G e → Within B K e → (∀ op ∈ ops, OpValid op) → SafeAlong env B e ops →
       ∃ e', e.run env ops = .ok e' ∧ SafeInv env G e' ∧ Within B K e' := by
   induction ops with
   | nil => intro e hi hw _ _; exact ⟨e, rfl, hi, hw⟩
   | cons op ops ih =>
     intro e hi hw hv hs
-    obtain ⟨e1, h1, hi1, hw1⟩ := within_apply_linked hE hn hi hw op (hv op (List.mem_cons_self ..))
+    obtain ⟨e1, h1, hi1, hw1⟩ := within_apply_linked hE hi hw op (hv op (List.mem_cons_self ..))
       (fun hf => hf.elim) hs.1
     obtain ⟨e2, h2, hi2, hw2⟩ := ih e1 hi1 hw1 (fun o ho => hv o (List.mem_cons_of_mem _ ho)) (hs.2 e1 h1)
     exact ⟨e2, by simp only [Editor.run]; rw [h1]; exact h2, hi2, hw2⟩
 
 /-- **every conversion asked for inside a step is short**: at most `B + max 2 K` symbols -/
-theorem mid_len_linked {B K : Nat} (hn : NoFuzzy env) {e : Editor D L} (hw : Within B K e) {op : Op L}
+theorem mid_len_linked {B K : Nat} {e : Editor D L} (hw : Within B K e) {op : Op L}
     {sh : Shared D L} (hm : Mid env e op sh) : sh.com.inner.symbols.length ≤ B + max 2 K :=
-  (mid_len env hn hw hm).2
+  (mid_len env hw hm).2
 
 end Chewing.Bound
